@@ -69,6 +69,11 @@ def ratLog2 (num den : Nat) : Int :=
   let (a, b) := scale num den e0        -- a/b = num/den / 2^e0
   if a ≥ b then e0 else e0 - 1
 
+/-- `± m / 2^k` with common factors of two removed (integers get `k = 0`) -/
+def normFin (neg : Bool) : Nat → Nat → FVal
+  | m, 0 => .fin neg m 0
+  | m, k + 1 => if m % 2 = 0 then normFin neg (m / 2) k else .fin neg m (k + 1)
+
 /-- The value `± num/den` rounded to the nearest value of format `f`, ties to even; overflow gives ±Inf.
     (IEEE-754 roundTiesToEven: what Go does for `float32(x)`, `float64(x)`, for an integer constant
     converted to a float type, and what `strconv.ParseFloat` returns.) -/
@@ -81,7 +86,7 @@ def roundRat (f : Fmt) (neg : Bool) (num den : Nat) : FVal :=
   if q ≥ 0 then
     let v := n * 2 ^ q.toNat
     if v ≥ 2 ^ (f.bias + 1) then .inf neg else .fin neg v 0
-  else .fin neg n (-q).toNat
+  else normFin neg n (-q).toNat
 
 /-- round a finite dyadic `± m / 2^k` to format `f` -/
 def roundNE (f : Fmt) (neg : Bool) (m k : Nat) : FVal := roundRat f neg m (2 ^ k)
